@@ -91,6 +91,13 @@ extern "C" ssize_t writev(int fd, const struct iovec *iov, int cnt)
 		return -1;
 	}
 	size_t want = (k < 0 || size_t(k) > total) ? total : size_t(k);
+	// The (offered, accepted) entry is logged BEFORE the bytes are handed to the kernel: the client of the harness collects the log as
+	// soon as it has read the complete response, which can be before this thread runs again after the last real writev() (seen on a
+	// slow / loaded CPU: the entry of the last call of a response then appeared in the log of the next case).  `want` is known here.
+	{
+		std::lock_guard<std::mutex> g(g_wv_mutex);
+		snprintf(tmp, sizeof(tmp), "%lu:%lu,", (unsigned long)total, (unsigned long)want); if (g_wv_calls++ < 4000) g_wv_log += tmp;
+	}
 	size_t done = 0;
 	while (done < want) {
 		struct iovec v[64]; int n = 0; size_t skip = done, left = want - done;
@@ -112,8 +119,6 @@ extern "C" ssize_t writev(int fd, const struct iovec *iov, int cnt)
 		}
 		done += size_t(r);
 	}
-	std::lock_guard<std::mutex> g(g_wv_mutex);
-	snprintf(tmp, sizeof(tmp), "%lu:%lu,", (unsigned long)total, (unsigned long)want); if (g_wv_calls++ < 4000) g_wv_log += tmp;
 	return ssize_t(want);
 }
 
